@@ -26,7 +26,8 @@ exactly at (b)).
 
 Mechanism names are symptoms (`change_without_completed_request`, `commit_before_status_ack`, `wrong_value_committed`,
 `no_change_after_status_ack`, `not_cleared_by_bus_reset`, `answers_at_wrong_address`, `silent_at_current_address`)
-except two history patterns that are open findings on the unchanged tree (findings/C08.md):
+except two history patterns that were found as defects of the original tree (findings/C08.md; repaired in /repo,
+`fixed` in known_findings.d/C08.json, so fatal if they reappear):
   commit_on_foreign_ack         - the change comes right after an ACK of another transaction while the request is
                                   between SETUP and status stage, with the request's value
   commit_by_stale_set_request   - a SET_ADDRESS/SET_CONFIGURATION was abandoned earlier on this device and the changed
